@@ -328,7 +328,7 @@ fn tag_of(d: &Diagnostic) -> &'static str {
     let has = |s: &str| m.contains(s);
     if has("invalid token") {
         "syntax"
-    } else if has("unrecognized") || has("extra token") {
+    } else if has("unrecognized") || has("extra token") || has("unexpected") || has("expected ") {
         "syntax"
     } else if has("transact code") {
         "code_overflow"
@@ -434,7 +434,7 @@ fn diag(d: &Diagnostic, nodes: &[Value], stage: &str) -> Value {
     })
 }
 
-fn project_result(fr: &ParseFileResult<PathBuf>, parse_stage: Option<&ParseFileResult<PathBuf>>, idname_: &str, scratch: &Path) -> (Value, Proj) {
+fn project_result(fr: &ParseFileResult<PathBuf>, parse_stage: Option<&ParseFileResult<PathBuf>>, idname_: &str, scratch: &Path, locs: Option<&[(usize, usize)]>) -> (Value, Proj) {
     let mut pr = Proj::default();
     if let Some(f) = &fr.ast {
         pr.aidl(f);
@@ -442,6 +442,7 @@ fn project_result(fr: &ParseFileResult<PathBuf>, parse_stage: Option<&ParseFileR
     // classify each diagnostic as parse-stage or validation-stage by multiset matching
     let mut pending: Vec<&Diagnostic> = parse_stage.map(|p| p.diagnostics.iter().collect()).unwrap_or_default();
     let all_parse = parse_stage.is_none();
+    let mut locs_pending: Vec<(usize, usize)> = locs.map(|l| l.to_vec()).unwrap_or_default();
     let mut ds = Vec::new();
     for d in &fr.diagnostics {
         let st = if all_parse {
@@ -452,7 +453,17 @@ fn project_result(fr: &ParseFileResult<PathBuf>, parse_stage: Option<&ParseFileR
         } else {
             "valid"
         };
-        ds.push(diag(d, &pr.nodes, st));
+        let mut dv = diag(d, &pr.nodes, st);
+        // did this diagnostic come out of the parser's error formatter (hook: recorded locations, in order)?
+        let mut synt = false;
+        if let Some(_l) = locs {
+            if let Some(pos) = locs_pending.iter().position(|x| *x == (d.range.start.offset, d.range.end.offset)) {
+                locs_pending.remove(pos);
+                synt = true;
+            }
+        }
+        dv["synt"] = json!(synt);
+        ds.push(dv);
     }
     // what the parse stage stored for each method's own `oneway` keyword (before propagation)
     let mut pows = Vec::new();
@@ -762,13 +773,15 @@ fn exec_op(ctx: &mut Ctx, op: &Value, ev: &mut Map<String, Value>) {
             let (idn, idp) = idpath(ctx, op);
             let text = op["text"].as_str().unwrap_or("");
             let _ = aidl_parser::diagnostic::verif_take_expected();
+            let _ = aidl_parser::diagnostic::verif_take_locations();
             remember(ctx, i, &idp, Some(text));
             let p = ctx.parsers.entry(i).or_insert_with(Parser::new);
             p.add_content(idp.clone(), text);
             let exp = aidl_parser::diagnostic::verif_take_expected();
+            let locs = aidl_parser::diagnostic::verif_take_locations();
             if op["parsed"].as_bool().unwrap_or(false) {
                 let fr = &p.verif_parse_results()[&idp];
-                let (v, _) = project_result(fr, None, &idn, &ctx.scratch.clone());
+                let (v, _) = project_result(fr, None, &idn, &ctx.scratch.clone(), Some(&locs));
                 ev.insert("pobs".into(), v);
                 ev.insert("expected".into(), json!(exp));
             }
@@ -834,7 +847,7 @@ fn exec_op(ctx: &mut Ctx, op: &Value, ev: &mut Map<String, Value>) {
             for (k, fr) in res.iter() {
                 let kn = idname(&scratch, k);
                 keys.push(kn.clone());
-                let (v, _) = project_result(fr, parsed.get(k), &kn, &scratch);
+                let (v, _) = project_result(fr, parsed.get(k), &kn, &scratch, None);
                 obs.insert(kn, v);
             }
             keys.sort();
@@ -898,7 +911,7 @@ fn exec_op(ctx: &mut Ctx, op: &Value, ev: &mut Map<String, Value>) {
                     return;
                 }
             };
-            let (_v, pr) = project_result(fr, None, &idn, &ctx.scratch);
+            let (_v, pr) = project_result(fr, None, &idn, &ctx.scratch, None);
             let astv = match &fr.ast {
                 Some(x) => x,
                 None => {
